@@ -33,6 +33,7 @@ def obligations(ctx):
     E.extra_intrinsics[r"Ed25519KeyHashes as From<&(tx_inputs_builder::)?TxInputsBuilder>>::from$"] = from_inputs
     E.extra_intrinsics[r"Ed25519KeyHashes as From<&(protocol_types::native_scripts::)?NativeScripts>>::from$"] = lambda E_, c, a: KS.mk(src["mint_scripts"])
     E.extra_intrinsics[r"MintBuilder::get_native_scripts$"] = lambda E_, c, a: VLazy("mint_native_scripts", "NativeScripts")
+    E.extra_intrinsics[r"MintBuilder::get_required_signers$"] = lambda E_, c, a: KS.mk(src["mint_scripts"])      # what it returns is c18_e2_mint_signers_follow_the_sources
     E.extra_intrinsics[r"WithdrawalsBuilder::get_required_signers$"] = lambda E_, c, a: KS.mk(src["withdrawals"])
     E.extra_intrinsics[r"CertificatesBuilder::get_required_signers$"] = lambda E_, c, a: KS.mk(src["certs"])
     E.extra_intrinsics[r"VotingBuilder::get_required_signers$"] = lambda E_, c, a: KS.mk(src["votes"])
@@ -264,3 +265,116 @@ def obligations(ctx):
         if npaths < 3:
             ob.fail("only %d Ok paths (expected: no scripts, scripts without datums, scripts with datums)" % npaths)
         ob.finish(E)
+    declared_signers(ctx)
+    mint_signers(ctx)
+
+
+def declared_signers(ctx):
+    """A signer set declared for a native-script source is what the builder counts for it — whether the source carries the
+    script inline or points at a reference input, and whether the declared set is empty or not (a script satisfied by a
+    time lock needs NO key: falling back to "every key in the script" would count witnesses nobody provides)."""
+    P = ctx.P
+    ob = Obligation(ctx, "c18_e2_declared_native_script_signers_respected", "both kinds of native-script source; declared signer set arbitrary (its size an arbitrary number, 0 included); set, then read",
+                    ["NativeScriptSourceEnum::set_required_signers", "NativeScriptSourceEnum::required_signers"], fallback_native="e2n_c18_declared_signers")
+    agg = Engine(P)
+    U = agg.U
+    E = Engine(P, max_loop=4)
+    E.U = U
+    nread = 0
+    variants = set()
+    for o in E.explore("NativeScriptSourceEnum::set_required_signers", lambda: [R(VLazy("source", "NativeScriptSourceEnum"), "self"), R(VLazy("declared", "Ed25519KeyHashes"), "key_hashes")], max_paths=40):
+        if o.kind != "return":
+            ob.vc("set_required_signers: no panic (%s %s)" % (o.kind, o.msg[:80]), o.pc, z3.BoolVal(False)); continue
+        E.enter(o)
+        st = VM.deref(E, o.args[0])
+        variants.add(st.variant if isinstance(st, VEnum) else "?")
+        S = Engine(P, max_loop=4)
+        S.U = U
+        S.base = list(o.pc)
+        # "every key in the script" (the fallback for an inline script WITHOUT a declaration) is some other set
+        for rx in (r"Ed25519KeyHashes as From<&(protocol_types::native_script::)?NativeScript>>::from$", r"NativeScript as Into<(protocol_types::ed25519_key_hashes::)?Ed25519KeyHashes>>::into$"):
+            S.extra_intrinsics[rx] = lambda E_, c, a: VLazy("every_key_of_the_script", "Ed25519KeyHashes")
+        def mk2(st=st, S=S, o=o):
+            S.lazy_ident.update(o.idents)
+            S.pc.append(S.as_u(VLazy("every_key_of_the_script", "Ed25519KeyHashes")) != z3.Const("lazy_declared@0", U))
+            return [R(clone(st), "self")]
+        for r in S.explore("NativeScriptSourceEnum::required_signers", mk2, max_paths=40):
+            what = "source kind %s" % (st.variant if isinstance(st, VEnum) else "?")
+            if r.kind != "return":
+                ob.vc("%s: required_signers does not panic (%s %s)" % (what, r.kind, r.msg[:80]), r.pc, z3.BoolVal(False)); continue
+            nread += 1
+            S.enter(r)
+            v = r.value
+            if not (isinstance(v, VEnum) and v.variant == "Some"):
+                ob.vc("%s: after a signer set was declared, required_signers returns it (got None)" % what, r.pc, z3.BoolVal(False)); continue
+            ob.vc("%s: required_signers returns exactly the declared set, whatever its size" % what, r.pc, S.as_u(VM.deref(S, v.fields[0])) == z3.Const("lazy_declared@0", U))
+        agg.stats["paths"] += S.stats["paths"]; agg.stats["functions"] |= S.stats["functions"]
+    agg.stats["paths"] += E.stats["paths"]; agg.stats["feasibility_queries"] += E.stats["feasibility_queries"]; agg.stats["functions"] |= E.stats["functions"]
+    if variants != {"NativeScript", "RefInput"} or nread < 2:
+        ob.fail("expected both source kinds, saw %s (%d reads)" % (sorted(variants), nread))
+    ob.finish(agg)
+
+
+def mint_signers(ctx):
+    """The keys counted for the mint field are the union, over the mint entries, of what each script source says must sign:
+    a declared signer set if there is one (inline or reference-input script, native or Plutus), otherwise every key of an
+    inline native script, otherwise nothing.  Executed through count_needed_vkeys with only the mint builder present."""
+    import itertools
+    P = ctx.P
+    ob = Obligation(ctx, "c18_e2_mint_signers_follow_the_sources", "1-2 mint entries, each one of: inline native (declared / undeclared), reference-input native (declared / undeclared), Plutus inline / reference (declared / undeclared); signer sets arbitrary (pointwise)",
+                    ["count_needed_vkeys", "MintBuilder::get_native_scripts / get_required_signers", "NativeScriptSourceEnum::required_signers", "PlutusScriptSourceEnum::get_required_signers"],
+                    fallback_native="e2n_c18_declared_signers")
+    agg = Engine(P)
+    kinds = ["NI-D", "NI-U", "NR-D", "NR-U", "PS-D", "PS-U", "PR-D", "PR-U"]
+    combos = [(k,) for k in kinds] + ([(a, b) for a, b in itertools.product(kinds, repeat=2) if a < b] if ctx.tier != "quick" else [("NI-D", "NR-D"), ("NI-U", "PS-D"), ("NR-D", "PR-D"), ("NI-D", "NI-U")])
+    n_ok = 0
+    for combo in combos:
+        E = Engine(P, max_loop=len(combo) + 4)
+        KS.install(E)
+        E.extra_intrinsics[r"Ed25519KeyHashes as From<&(protocol_types::native_script::)?NativeScript>>::from$"] = \
+            lambda E_, c, a: KS.mk(z3.Function("key_in_script", E_.U, z3.BoolSort())(E_.as_u(VM.deref(E_, a[0]))))
+        E.extra_intrinsics[r"NativeScript as Into<(protocol_types::ed25519_key_hashes::)?Ed25519KeyHashes>>::into$"] = \
+            lambda E_, c, a: KS.mk(z3.Function("key_in_script", E_.U, z3.BoolSort())(E_.as_u(VM.deref(E_, a[0]))))
+        E.extra_intrinsics[r"Ed25519KeyHashes as From<&(tx_inputs_builder::)?TxInputsBuilder>>::from$"] = lambda E_, c, a: KS.mk(z3.BoolVal(False))
+        spec = []
+        def mk(E=E, combo=combo, spec=spec):
+            del spec[:]
+            entries = []
+            for j, k in enumerate(combo):
+                declared = VEnum("Option", "Some", [VLazy("declared%d" % j, "Ed25519KeyHashes")]) if k.endswith("-D") else VEnum("Option", "None", [])
+                dm = KS.member_of(E, VLazy("declared%d" % j, "Ed25519KeyHashes"))
+                if k.startswith("NI"):
+                    scr = VLazy("script%d" % j, "NativeScript")
+                    src_ = VEnum("NativeScriptSourceEnum", "NativeScript", [scr, declared])
+                    sm = VEnum("ScriptMint", "Native", [E.mk_struct("NativeMints", script=src_, mints=VLazy("m%d" % j, "BTreeMap<AssetName, Int>"))])
+                    spec.append(dm if k.endswith("-D") else z3.Function("key_in_script", E.U, z3.BoolSort())(E.as_u(scr)))
+                elif k.startswith("NR"):
+                    src_ = VEnum("NativeScriptSourceEnum", "RefInput", [VLazy("refin%d" % j, "TransactionInput"), VLazy("shash%d" % j, "ScriptHash"), declared, VInt(40, "usize")])
+                    sm = VEnum("ScriptMint", "Native", [E.mk_struct("NativeMints", script=src_, mints=VLazy("m%d" % j, "BTreeMap<AssetName, Int>"))])
+                    spec.append(dm if k.endswith("-D") else z3.BoolVal(False))
+                else:
+                    src_ = VEnum("PlutusScriptSourceEnum", "Script" if k.startswith("PS") else "RefInput", [VLazy("pscript%d" % j, "PlutusScript" if k.startswith("PS") else "PlutusScriptRef"), declared])
+                    sm = VEnum("ScriptMint", "Plutus", [E.mk_struct("PlutusMints", script=src_, redeemer=VLazy("red%d" % j, "Redeemer"), mints=VLazy("m%d" % j, "BTreeMap<AssetName, Int>"))])
+                    spec.append(dm if k.endswith("-D") else z3.BoolVal(False))
+                entries.append(VStruct("()", [VLazy("policy%d" % j, "ScriptHash"), sm]))
+            none = VEnum("Option", "None", [])
+            tb = E.mk_struct("TransactionBuilder", inputs=VLazy("inputs", "TxInputsBuilder"), collateral=VLazy("collateral", "TxInputsBuilder"), required_signers=KS.mk(z3.BoolVal(False)),
+                             mint=VEnum("Option", "Some", [E.mk_struct("MintBuilder", mints=VSeq(entries, "map"))]), withdrawals=none, certs=none, voting_procedures=none)
+            return [R(tb, "tx_builder")]
+        try:
+            outs = E.explore("count_needed_vkeys", mk, max_paths=60)
+        except Unsupported as e:
+            ob.fail("mint entries %s: the counting code cannot be executed (%s)" % (list(combo), str(e)[:140])); continue
+        for o in outs:
+            if o.kind != "return":
+                ob.vc("no panic (%s %s)" % (o.kind, o.msg[:80]), o.pc, z3.BoolVal(False)); continue
+            lens = [t for t in o.trace if t[0] == "keyset_len"]
+            if len(lens) != 1:
+                ob.fail("count is not the len() of one set"); continue
+            n_ok += 1
+            ob.vc("mint entries %s: an arbitrary key is counted iff one of the script sources requires it" % list(combo), o.pc, lens[0][1] == z3.Or(list(spec)), info=list(combo))
+        agg.stats["paths"] += E.stats["paths"]; agg.stats["feasibility_queries"] += E.stats["feasibility_queries"]; agg.stats["functions"] |= E.stats["functions"]
+    if n_ok == 0:
+        ob.fail("no path")
+    ob.cross_every = 4
+    ob.finish(agg, lambda m, info=None: ("e2n_c18_declared_signers", []))
